@@ -309,3 +309,10 @@ Proof.
     assert (r < length (hs_regs s')) by (apply nth_error_Some; congruence). rewrite Z in Hr by lia. congruence. }
   destruct I' as (_ & _ & RC & _ & T). split; [apply T; split; assumption|]. rewrite (RC t Lt), C0. reflexivity.
 Qed.
+
+(* a concrete history over two trees: tree 1 goes when its last handle goes (a clone_from re-pointed to it
+   keeps it alive until then), tree 0 when the remaining handles are dropped *)
+Example handles_example :
+  snd (hrun_ops (hinit 2) [HClone 0; HCloneFrom 2 1; HDrop 1; HDrop 2; HSwap 0 1; HChild 0]) = [[]; []; []; [1]; []; []] /\
+  snd (hdrop_all (fst (hrun_ops (hinit 2) [HClone 0; HCloneFrom 2 1; HDrop 1; HDrop 2; HSwap 0 1; HChild 0]))) = [[]; [0]; []; []].
+Proof. vm_compute. split; reflexivity. Qed.
